@@ -17,13 +17,13 @@ import (
 var (
 	// first rune upper-case: exported
 	poolExported = []string{
-		"Ärger", "Ωmega", "Émile", "Жук", "Ünit_1", "Ǆem", "𐐀bc", "ẞ9", "Öl2", "Σ", "Ñu_", "X_1", "Z世", "İo", "Ée", "Ⱥb", "Ｆw", "F_", "Q9",
+		"Ärger", "Ωmega", "Émile", "Жук", "Ünit_1", "Ǆem", "𐐀bc", "ẞ9", "Öl2", "Σ", "Ñu_", "X_1", "Z世", "İo", "Ée", "Ⱥb", "Ｆw", "F_", "Q9", "GetX", "ÖlÄ", "ΩΣ", "SetÄb",
 	}
 	// first rune lower-case, caseless or `_`: not exported. Several are the
 	// lower-cased forms of exported names above: a helper and an exported
 	// function may differ in the case of the first rune only.
 	poolHelper = []string{
-		"ärger", "ωx", "étape", "жук", "_h", "h_2", "世界", "ñ1", "ßx", "x9_", "ǆem", "𐐨bc", "µ", "ʃa", "σ", "ⱥb", "_Ä", "ǅx", "öl2",
+		"ärger", "ωx", "étape", "жук", "_h", "h_2", "世界", "ñ1", "ßx", "x9_", "ǆem", "𐐨bc", "µ", "ʃa", "σ", "ⱥb", "_Ä", "ǅx", "öl2", "hX", "äÖ", "getX",
 	}
 	poolParam  = []string{"ä", "n_1", "πi", "名", "_p", "ы2", "é", "ø_", "ζ9", "p世", "Ä1", "Ж", "_0", "𐐨"}
 	poolGlobal = []string{"gÄ", "Ωg", "счёт", "g_1", "ĝ", "Gé", "_g2", "数", "Ǆg", "𐐀g"}
